@@ -25,7 +25,7 @@ one_clause_decides).
 Stream e (harness c12w7.go): every valid skeleton over <= 3 atoms (+ a slice of the 4-atom ones, re-spellings, longer chains;
 atoms as symbols / comparisons / constants) through EVERY parsing entry point: ast.Parse (truth table) and zitiql.Parse,
 zitiql.ParseWithDebug(debug=false / true) with a bare and with the ast listener (acceptance), then ast.Parse again (pooled
-parser instances) - a valid skeleton is accepted by all of them (theorem every_entry_point_accepts_alike).
+parser instances) - a valid skeleton is accepted by all of them (compared, not modelled: the model has one parser).
 Stream q (harness c12w7.go): atoms whose sub-queries nest 2-3 levels (fams -> kids -> toys -> parts, a store-typed symbol
 table with linked sets) at every leaf position; families of filters that the property makes equal - the same operands in
 every order, every grouping, with redundant parentheses, at the top level and inside the middle sub-query - must all be
